@@ -173,7 +173,56 @@ func (d *Discharger) Retry(obls []*Obligation, factor int) int {
 	return len(todo)
 }
 
+// caseCover: the case is infeasible after the callee's postconditions only if it already was before.
+// Answers come from finitely instantiated queries: their "unsat" is a proof of infeasibility, their "sat" only a
+// candidate, which is all a vacuity guard needs.
+func (d *Discharger) caseCover(o *Obligation) {
+	run := func(assumes []*Term, tag string) string {
+		d.mu.Lock()
+		as := assumes
+		if ax := boxAxioms(as); len(ax) > 0 {
+			as = append(as[:len(as):len(as)], ax...)
+		}
+		if ax := closureAxioms(as); len(ax) > 0 {
+			as = append(as[:len(as):len(as)], ax...)
+		}
+		ia, ig, any := instantiate(as, False)
+		if !any {
+			ia, ig = as, False
+		}
+		text := (&Query{Name: o.Name + " [" + tag + "]", Assumes: ia, Goal: ig, AbstractRec: true}).SMTText(true)
+		d.mu.Unlock()
+		if len(text) > 400_000 {
+			return "unknown"
+		}
+		h := sha1.Sum([]byte(text))
+		file := filepath.Join(d.Dir, fmt.Sprintf("%x.cover.smt2", h[:8]))
+		os.WriteFile(file, []byte(text), 0o644)
+		r, _ := race(file, 3, false)
+		d.mu.Lock()
+		d.SolverTime += r.Time
+		d.mu.Unlock()
+		o.Note = file
+		return r.Answer
+	}
+	o.Status = "discharged"
+	o.Backend = "cover"
+	if run(o.Assumes, "case after the call") == "unsat" {
+		if run(o.Before, "case before the call") != "unsat" {
+			o.Status = "failed"
+			o.Model = "the case '" + o.Clause + "' is possible before the call but impossible after assuming the callee's postconditions: the contract constrains state the call does not modify (vacuity)"
+		}
+	}
+	d.mu.Lock()
+	d.Stats[o.Backend]++
+	d.mu.Unlock()
+}
+
 func (d *Discharger) one(o *Obligation) {
+	if o.Kind == "casecover" {
+		d.caseCover(o)
+		return
+	}
 	d.mu.Lock()
 	if ax := boxAxioms(append(append([]*Term{}, o.Assumes...), o.Goal)); len(ax) > 0 {
 		o.Assumes = append(o.Assumes[:len(o.Assumes):len(o.Assumes)], ax...)
